@@ -16,10 +16,10 @@ func (*inArray) Exit(node *Node) {
 			if array, ok := n.Right.(*ArrayNode); ok {
 				if len(array.Nodes) > 0 {
 					t := n.Left.Type()
-					if t == nil || t.Kind() != reflect.Int {
+					if t == nil || t != reflect.TypeOf(0) {
 						// This optimization can be only performed if left side is int type,
 						// as runtime.in func uses reflect.Map.MapIndex and keys of map must,
-						// be same as checked value type.
+						// be same as checked value type (a named type of kind int is not).
 						goto string
 					}
 
@@ -41,7 +41,7 @@ func (*inArray) Exit(node *Node) {
 					}
 
 				string:
-					if t := n.Left.Type(); t == nil || t.Kind() != reflect.String {
+					if t := n.Left.Type(); t == nil || t != reflect.TypeOf("") {
 						// The lookup map is keyed by string; any other left
 						// operand must keep the element-wise comparison.
 						return
